@@ -158,6 +158,9 @@ def run_jobs(prop, specs, tier, seed, known_regions, nproc, only=None):
         os.unlink(out)
         env = dict(os.environ, PYTHONPATH=VERIF, PYTHONHASHSEED='0')
         env[GUARD] = '1'
+        env.setdefault('VERIF_CROSSCHECK', '2' if tier == 'quick' else '6')
+        if tier != 'quick':
+            env.setdefault('VERIF_CROSSCHECK_CVC5', '1')
         logf = open(out + '.log', 'w')
         p = subprocess.Popen([PY, '-m', 'harness.run', '--job-child', prop, s['name'], json.dumps(params), out, str(seed)],
                              cwd=VERIF, env=env, stdout=logf, stderr=subprocess.STDOUT, text=True)
@@ -414,6 +417,7 @@ def write_evidence(prop, tier, seed, mod, results, final, violations, inconclusi
         'differential_models': sum(r.get('differential_models', 0) for r in done),
         'vacuity_witnesses': sum(len(r.get('vacuity', [])) for r in done),
         'replays_run': replays_done,
+        'second_solver_agreement': {k: sum((r.get('second_solver') or {}).get(k, 0) for r in done) for k in ('queries_rechecked', 'agree', 'no_answer_in_time', 'disagree')},
         'known_findings_printed': known_lines,
         'jobs': [{k: r.get(k) for k in ('job', 'status', 'rung', 'params', 'obligations', 'discharged', 'input_bits',
                                          'aig_nodes', 'queries', 'trivial_queries', 'lift_s', 'solver_s', 'max_query_s',
